@@ -323,7 +323,7 @@ for var, extra, txt in (("stub", [], "frame (only bn->digits / bn->num), status 
         enforce=["bn_mod_sqrt"], replace=MS_REPL, functions=["bn_mod_sqrt"], route="bounded", backend="kissat",
         bound="W = 8, build with BN_MAX_DIGITS = 7 (every capacity, value and modulus of that build); both loops closed by loop contracts; the 19 callees replaced by the light contracts of contracts/bn_light.h (same requires/assigns, subset of the ensures of their enforced C01 contracts): " + txt,
         loops=loops_file("mod_sqrt_lc" + ("_range" if var == "range" else ""), ["bn_mod_sqrt"], maxd=7, variant=("ms_range" if var == "range" else None)), foreach=[{"SZ": 1, "MAXD": 7}],
-        tier="thorough", timeout=2400, timeout_thorough=2400, mem_gb=30, cbmc=["--object-bits", "11"])
+        tier="thorough", timeout=2400, timeout_thorough=2400, mem_gb=30, trace=(var == "stub"), cbmc=["--object-bits", "11"])
 
 # ------------------------------------------------------------------ tier overrides from measured times (quick: <= ~90 s each on an idle 16-core box)
 import re
